@@ -61,6 +61,16 @@ def main():
         from sim.p_c17 import serve
         serve(prop)
         return 0
+    if mode == "sequence":
+        # run the given case indices in order in this (fresh) interpreter; report the digest of each
+        out = {}
+        for idx in args["indices"]:
+            case = prop.gen_case((args["seed"], pid, idx), args["tier_cfg"])
+            res = prop.run_case(case)
+            out[idx] = res["digest"]
+        emit({"type": "sequence", "digests": out})
+        emit({"type": "done"})
+        return 0
     if mode == "directed":
         for ent in args["entries"]:
             try:
